@@ -24,6 +24,7 @@ func (m smp3Message) tlv() tlv {
 
 func (c *Conversation) generateSMP3Parameters() (s smp3State, err error) {
 	b := make([]byte, c.version.parameterLength())
+	defer wipeBytes(b)
 	var err1, err2, err3, err4 error
 
 	s.r4, err1 = c.randMPI(b)
